@@ -211,6 +211,18 @@ def call_spec(name, w, op):
         if 'fs' not in w.bk_amp:
             w.bk_amp_full = getattr(w, 'bk_amp_full', None) or dict(w.bk_amp, fs=fs, f_range=fr)
         return compute_burst_features, [('df_shape_features', t_shape), ('sig', w.sig)], dict(burst_method='amp', burst_kwargs=w.bk_amp_full), None
+    if name in ('compute_burst_fraction[float-samples]', 'compute_burst_features[amp,float-samples]') and t_shape is not None:
+        # a table whose sample columns hold whole numbers as float64 (what pandas hands back after a reindex / outer concat / CSV
+        # round trip with a blank line): same values, and the caller's table keeps its dtypes
+        if getattr(w, 'shape_float_src', None) is not t_shape:
+            w.shape_float_src = t_shape
+            w.shape_float = t_shape.copy()
+            for col_ in [c_ for c_ in w.shape_float.columns if c_.startswith('sample_')]:
+                w.shape_float[col_] = w.shape_float[col_].astype('float64')
+        if name.startswith('compute_burst_fraction'):
+            return compute_burst_fraction, [('df', w.shape_float), ('sig', w.sig), ('fs', fs), ('f_range', fr)], dict(w.bk_amp), None
+        w.bk_amp_full = getattr(w, 'bk_amp_full', None) or dict(w.bk_amp, fs=fs, f_range=fr)
+        return compute_burst_features, [('df_shape_features', w.shape_float), ('sig', w.sig)], dict(burst_method='amp', burst_kwargs=w.bk_amp_full), None
     if name == 'compute_amp_fraction' and t_shape is not None:
         return compute_amp_fraction, [('df', t_shape)], {}, None
     if name == 'compute_amp_consistency' and t_shape is not None:
@@ -246,6 +258,14 @@ def call_spec(name, w, op):
         th = {k: v for k, v in w.th_cyc.items()}
         w.plot_th = getattr(w, 'plot_th', None) or th
         return plot_burst_detect_summary, [('df_features', t_cyc), ('sig', w.sig), ('fs', fs), ('threshold_kwargs', w.plot_th)], dict(plot_only_result=bool(op % 2), interp=bool(op % 3), xlim=view(w, op)), None
+    if name in ('plot_burst_detect_summary[flat]', 'plot_cyclepoints_df[flat]') and t_cyc is not None:
+        # a disconnected channel: a perfectly flat trace with an offset, drawn with the table of a neighbouring channel
+        if not hasattr(w, 'flat'):
+            w.flat = np.full(len(w.sig), 2.5)
+        if name.startswith('plot_burst'):
+            w.plot_th = getattr(w, 'plot_th', None) or {k: v for k, v in w.th_cyc.items()}
+            return plot_burst_detect_summary, [('df_features', t_cyc), ('sig', w.flat), ('fs', fs), ('threshold_kwargs', w.plot_th)], dict(plot_only_result=bool(op % 2), xlim=view(w, op)), None
+        return plot_cyclepoints_df, [('df_samples', t_cyc), ('sig', w.flat), ('fs', fs)], dict(xlim=view(w, op)), None
     if name == 'plot_burst_detect_param' and t_cyc is not None:
         return plot_burst_detect_param, [('df_features', t_cyc), ('sig', w.sig), ('fs', fs), ('burst_param', 'monotonicity'), ('thresh', 0.5)], dict(interp=bool(op % 2), xlim=view(w, op)), None
     if name == 'plot_cyclepoints_df' and t_any is not None:
@@ -264,7 +284,9 @@ CALLS = PRODUCERS + ['compute_shape_features[n_cycles]', 'compute_features[bound
                      'compute_features_3d', 'compute_burst_features[cycles]', 'compute_burst_features[amp]', 'compute_amp_fraction',
                      'compute_amp_consistency', 'compute_period_consistency', 'compute_monotonicity', 'compute_burst_fraction', 'find_zerox',
                      'extrema_interpolated_phase', 'recompute_edges', 'limit_df', 'epoch_df', 'drop_samples_df', 'plot_burst_detect_summary',
-                     'plot_burst_detect_param', 'plot_cyclepoints_df', 'plot_cyclepoints_array', 'plot_feature_hist', 'plot_feature_categorical']
+                     'plot_burst_detect_param', 'plot_cyclepoints_df', 'plot_cyclepoints_array', 'plot_feature_hist', 'plot_feature_categorical',
+                     'compute_burst_fraction[float-samples]', 'compute_burst_features[amp,float-samples]', 'plot_burst_detect_summary[flat]',
+                     'plot_cyclepoints_df[flat]']
 
 
 def run_call(fn, args, kwargs):
